@@ -29,7 +29,7 @@ func runImplOnly(stmts []string, fuel int) implObs {
 	s := impl.NewSession()
 	var o implObs
 	for _, src := range stmts {
-		pr := impl.Parse(src, impl.ParseFuel(len(src)))
+		pr := impl.ParseCached(src)
 		if pr.Err != "" || pr.Panic != "" || pr.FuelOut != "" {
 			return implObs{Last: "PARSE " + pr.Err + pr.Panic + pr.FuelOut, Fault: true}
 		}
